@@ -610,6 +610,57 @@ def h_seq(ctx, keep, n, prefix=()):
     return ['done', trail]
 
 
+OPEN_VARIANTS = {
+    # name: (extra lines of the neighbor before the reload, after the reload)
+    'hold-time': (None, None),     # through _neighbor(hold=...)
+    'add-path-families': ([' family {', '  ipv4 unicast;', '  ipv6 unicast;', ' }', ' capability {', '  add-path send/receive;', ' }', ' add-path {', '  ipv4 unicast;', ' }'],
+                          [' family {', '  ipv4 unicast;', '  ipv6 unicast;', ' }', ' capability {', '  add-path send/receive;', ' }', ' add-path {', '  ipv4 unicast;', '  ipv6 unicast;', ' }']),
+    'families': ([' family {', '  ipv4 unicast;', ' }'], [' family {', '  ipv4 unicast;', '  ipv6 unicast;', ' }']),
+    'route-refresh': ([' capability {', '  route-refresh disable;', ' }'], [' capability {', '  route-refresh enable;', ' }']),
+    'nothing': ([' family {', '  ipv4 unicast;', ' }'], [' family {', '  ipv4 unicast;', ' }']),
+}
+
+
+@guarded
+def h_open_change(ctx, keep):
+    """A reload which changes what our OPEN says (hold time, families, ADD-PATH families, route refresh) can only take effect on a
+    new session: the peer is told to re-establish.  Judged on the OPEN itself: the octets the real Capabilities().new() /
+    Open.make_open() produce for the neighbor before and after the reload; they differ => Peer.reestablish was called."""
+    from exabgp.bgp.message.open import Open, Version
+    from exabgp.bgp.message.open.capability import Capabilities
+    name = ctx.pick('what-changes', sorted(OPEN_VARIANTS))
+    before_extra, after_extra = OPEN_VARIANTS[name]
+    routes = ['10.0.0.0/24 next-hop 1.1.1.1']
+    if name == 'hold-time':
+        old, new = _neighbor(N2, routes, hold=180), _neighbor(N2, routes, hold=90)
+    else:
+        old, new = _neighbor(N2, routes, extra=[x.strip() for x in before_extra]), _neighbor(N2, routes, extra=[x.strip() for x in after_extra])
+    CONF['open-old'], CONF['open-new'] = PROC + old, PROC + new
+    w = start(ctx, 'open-old')
+    keep.append(w)
+
+    def open_octets(nb):
+        o = Open.make_open(Version(4), nb.session.local_as, nb.hold_time, nb.session.router_id, Capabilities().new(nb, False))
+        return bytes(o.pack_message(None))
+    key = list(w.reactor._peers)[0]
+    peer = w.reactor._peers[key]
+    first = open_octets(peer.neighbor)
+    w.set_source(CONF['open-new'])
+    r = w.reload()
+    ctx.check('good-file-loads', r is True, sig='C17:open-change:good-file-refused', info={'what': name, 'error': str(w.cfg.error)[:200]})
+    if r is not True:
+        return ['refused', name]
+    second = open_octets(w.cfg.neighbors[key])
+    changed = first != second
+    asked = peer._teardown is not None and peer._restarted
+    ctx.cover('open-changes' if changed else 'open-unchanged')
+    ctx.check('changed-open-means-new-session', asked or not changed, sig='C17:open-change:%s:session-kept-although-our-open-changed' % name,
+              info={'what': name, 'open-before': first.hex(), 'open-after': second.hex()})
+    ctx.check('unchanged-open-keeps-the-session', changed or not asked, sig='C17:open-change:%s:session-reset-although-our-open-is-the-same' % name,
+              info={'what': name})
+    return [name, changed, asked]
+
+
 GOOD_RELOADS = ('reload-A', 'reload-B', 'reload-C', 'reload-D')
 
 
@@ -670,6 +721,7 @@ def units(tier):
     us.append(Unit('seq/2', lambda ctx: h_seq(ctx, 2), must_cover=('good-reload', 'failed-reload'), weight=40, max_seconds=900))
     # a neighbor which is reconfigured, leaves the configuration and comes back: what its earlier incarnation held is gone
     us.append(Unit('seq/leave-and-return', lambda ctx: h_seq(ctx, 3, prefix=('reload-B', 'reload-D')), must_cover=('good-reload',), weight=30, max_seconds=900))
+    us.append(Unit('delta/our-open-changes', h_open_change, must_cover=('open-changes', 'open-unchanged'), weight=20, max_seconds=600))
     us.append(Unit('seq/back-to-back/%d' % (3 if th else 2), lambda ctx: h_back_to_back(ctx, 3 if th else 2),
                    must_cover=('reload-before-the-peers-took-up-the-previous-one', 'reloads-while-the-sessions-are-down'), weight=40, max_seconds=900))
     if th:
